@@ -489,7 +489,7 @@ func c15GenConc(rng *rand.Rand, tier string, emit func(string)) {
 	g := &c15Gen{rng}
 	ncase, lmin, lmax, mmin, mmax, nq, nix, gor, rounds := 4, 100, 180, 20, 30, 8, 6, 8, 3
 	if tier == "thorough" {
-		ncase, lmin, lmax, mmin, mmax, nq, nix, gor, rounds = 6, 150, 400, 30, 60, 12, 10, 16, 4
+		ncase, lmin, lmax, mmin, mmax, nq, nix, gor, rounds = 3, 150, 320, 30, 50, 10, 8, 16, 4
 	}
 	for c := 0; c < ncase; c++ {
 		base := g.word(lmin+rng.Intn(lmax-lmin+1), "acgt")
@@ -573,15 +573,18 @@ func c15FirstSeed() bool {
 }
 
 var (
-	c15RaceBin   string
-	c15RaceTried bool
+	c15RaceBin  string
+	c15RaceOnce sync.Once
 )
 
+// c15RaceBuild: built once; Gen starts it in the background at the beginning of a thorough run of the first seed, so that
+// the build overlaps the other cases
 func c15RaceBuild() string {
-	if c15RaceTried {
-		return c15RaceBin
-	}
-	c15RaceTried = true
+	c15RaceOnce.Do(func() { c15RaceBin = c15RaceBuild1() })
+	return c15RaceBin
+}
+
+func c15RaceBuild1() string {
 	root := os.Getenv("VERIF_ROOT")
 	if root == "" {
 		root = "/verif"
@@ -610,7 +613,6 @@ func c15RaceBuild() string {
 		return ""
 	}
 	stat("race-build:ok")
-	c15RaceBin = bin
 	return bin
 }
 
